@@ -11,7 +11,7 @@ CONSTANTS
   ScaleKs <- K_one
   Kinds = {"list"}
   PerturbNames <- N_base
-  RegPool <- Regs12
+  RegPool <- Regs12s
   Keys = {"energy"}
   HelperNames = {"linspace"}
   Plan <- Plan_reg
